@@ -18,10 +18,12 @@ LINK = {
     # static PIE whose dynamic relocations are REL (implicit addends) instead of x86_64's usual RELA; OPTIONAL: needs
     # a linker that knows `-z rel` (rust-lld does); a failed build of this mode is reported but is not an error
     "pierel": " -C target-feature=+crt-static -C relocation-model=pie -C link-arg=-Wl,-z,rel",
+    # dynamic PIE of the MINIMAL feature set (probe-env only: cargo features start + symbols, no aux / vdso)
+    "min": "",
 }
 OPTIONAL = {"pierel-debug"}
 ALL = ["dyn-debug", "dyn-release", "static-debug", "static-release", "pie-debug", "pie-release"]
-ALL_ENV = ALL + ["pierel-debug"]  # probe-env only
+ALL_ENV = ALL + ["pierel-debug", "min-debug", "min-release"]  # probe-env only
 
 
 def build(package, mode):
@@ -36,6 +38,8 @@ def build(package, mode):
     cmd = ["cargo", "build", "--offline", "-q", "-p", package, "--target", "x86_64-unknown-linux-gnu", "--target-dir", tdir]
     if prof == "release":
         cmd.append("--release")
+    if link == "min":
+        cmd += ["--no-default-features", "--features", "min"]
     p = subprocess.run(cmd, cwd=PROBES, env=env, stdout=subprocess.PIPE, stderr=subprocess.STDOUT)
     if p.returncode != 0:
         sys.stderr.write(p.stdout.decode("utf-8", "replace")[-4000:])
